@@ -595,6 +595,16 @@ def _run(ctx, rng, corpus):
         for _ in range(n_caps):
             objs.append(U.rand_cap(random.Random("C16-corpus-%s-%s" % (tag, is_dir)) if corpus else rng, tag, is_dir))
 
+    if corpus:
+        # seed C16-e (derived read caps memoised by read key only): write caps that SHARE the write key but differ in
+        # the fingerprint, diminished one after the other in this process — each read/verify cap must carry the
+        # fingerprint of the cap it was derived from
+        from allmydata import uri as _uri
+        wk = bytes(range(100, 116))
+        for fp in (bytes(range(32)), bytes(range(32, 64)), b"\xff" * 32):
+            for cls in (_uri.WriteableSSKFileURI, _uri.WriteableMDMFFileURI):
+                objs.append(cls(wk, fp))
+                objs.append(_uri.wrap_dirnode_cap(cls(wk, fp)))
     # --- attenuation of objects
     lines, impl, cases = [], [], []
     for c in objs:
